@@ -579,6 +579,108 @@ def r18_sig(sig, fired):
     return sig[:m.start()] + _pad('', sig[m.start():m.end()]) + sig[m.end():]
 
 
+def _split_generic_args(s):
+    out, cur, d = [], '', 0
+    for ch in s:
+        if ch in '<([':
+            d += 1
+        elif ch in '>)]':
+            d -= 1
+        if ch == ',' and d == 0:
+            out.append(cur.strip())
+            cur = ''
+        else:
+            cur += ch
+    if cur.strip():
+        out.append(cur.strip())
+    return out
+
+
+def r18b_sig(sig, file_src, fired):
+    """R18b (opt-in per Fn: `rules=('R18b',)`): a HAND-DESUGARED `#[async_trait]` method
+
+        fn f<'a, 'b, 'async_trait>(&'a self, x: &'b T, ..) -> Pin<Box<dyn Future<Output = R> + Send + 'async_trait>>
+        where 'a: 'async_trait, 'b: 'async_trait, Self: 'async_trait
+
+    becomes `fn f(&self, x: &T, ..) -> R`, i.e. the `async fn f(&self, x: &T, ..) -> R` the attribute macro would have been given,
+    read sequentially as by R18.  A body that RETURNS the future of a callee without awaiting it (`self.deref().g(..)`) is, under
+    that reading, the call of g itself: nothing runs before the returned future is polled, and polling it is running g.
+    Mechanical steps, each a syntactic check that raises ExtractError (exit 2) when the shape is anything else:
+      1. the generic list may contain only lifetimes and must contain 'async_trait; it is deleted;
+      2. every use of one of those lifetimes in the parameter list (`&'a self`, `&'c mut ..`) is deleted;
+      3. the return type must be `Pin<Box<dyn Future<Output = R> [+ Send] + 'async_trait>>`, or `Pin<ALIAS<args>>` where
+         `type ALIAS<params> = Box<dyn Future<Output = R> [+ Send] + 'lt>;` is READ FROM THE SAME FILE (`file_src`) and its type
+         parameters are replaced by `args`; it becomes R;
+      4. the where-clause may contain only `'x: 'async_trait` and `Self: 'async_trait`; it is deleted.
+    What is DROPPED beyond R18: the lifetime bounds tying the future to its borrows, `Send`, the boxing/pinning, and the laziness
+    of the returned future (no code of these bodies runs before the first poll)."""
+    msk = mask(sig)
+    m = re.search(r'\bfn\s+(\w+)\s*<([^<>]*)>\s*\(', msk)
+    if not m:
+        raise ExtractError('R18b: no lifetime-generic signature: %r' % norm_ws(sig)[:100])
+    name = m.group(1)
+    lts = [g.strip() for g in sig[m.start(2):m.end(2)].split(',') if g.strip()]
+    if not lts or any(not re.match(r"^'\w+$", g) for g in lts) or "'async_trait" not in lts:
+        raise ExtractError("R18b: %s: generics %r are not lifetimes including 'async_trait" % (name, lts))
+    po = m.end() - 1
+    pc = match_close(msk, po)
+    params = sig[po:pc + 1]
+    for lt in lts:
+        params = re.sub(r"&\s*%s\b\s*" % re.escape(lt), '&', params)
+    if re.search(r"'\w+", mask(params)):
+        raise ExtractError('R18b: %s: a lifetime survives in the parameter list: %r' % (name, norm_ws(params)[:120]))
+    tail = sig[pc + 1:]
+    tm = mask(tail)
+    w = re.search(r'\bwhere\b', tm)
+    rett = tail[:w.start()] if w else tail
+    where = tail[w.end():] if w else ''
+    r = re.match(r'^\s*->\s*(.*?)\s*$', rett, re.S)
+    if not r:
+        raise ExtractError('R18b: %s: no return type' % name)
+    ret = norm_ws(r.group(1))
+
+    def future_output(t, what):
+        fm = re.match(r"^Box<\s*dyn Future<Output = (.*)>((?:\s*\+\s*(?:Send|'\w+))*)\s*>$", t)
+        if not fm or not re.search(r"'\w+", fm.group(2)):
+            raise ExtractError('R18b: %s: %s is not Box<dyn Future<Output = R> [+ Send] + \'lt>: %r' % (name, what, t))
+        return fm.group(1).strip()
+    pm = re.match(r'^Pin<\s*(.*)\s*>$', ret)
+    if not pm:
+        raise ExtractError('R18b: %s: return type is not Pin<..>: %r' % (name, ret))
+    inner = pm.group(1).strip()
+    if inner.startswith('Box<'):
+        out = future_output(inner, 'return type')
+    else:
+        am = re.match(r'^(\w+)\s*<(.*)>$', inner)
+        if not am:
+            raise ExtractError('R18b: %s: return type %r is neither Box<dyn Future..> nor an alias' % (name, inner))
+        alias, args = am.group(1), _split_generic_args(am.group(2))
+        fmsk = mask(file_src)
+        defs = list(re.finditer(r'(?m)^[ \t]*(?:pub(?:\([a-z]+\))?\s+)?type\s+%s\s*<([^=;]*)>\s*=\s*([^;]*);' % re.escape(alias), fmsk))
+        if len(defs) != 1:
+            raise ExtractError('R18b: %s: type alias %s defined %d times in the file' % (name, alias, len(defs)))
+        d = defs[0]
+        aparams = _split_generic_args(file_src[d.start(1):d.end(1)])
+        body = norm_ws(file_src[d.start(2):d.end(2)])
+        if len(aparams) != len(args):
+            raise ExtractError('R18b: %s: alias %s takes %d parameters, %d given' % (name, alias, len(aparams), len(args)))
+        out = future_output(body, 'alias %s' % alias)
+        for p, a in zip(aparams, args):
+            if not p.startswith("'"):
+                out = re.sub(r'\b%s\b' % re.escape(p), a, out)
+        fired.append('R18b alias %s<%s> = %s read from the file' % (alias, ', '.join(aparams), body))
+    if re.search(r"'\w+", out):
+        raise ExtractError('R18b: %s: a lifetime survives in the output type %r' % (name, out))
+    preds = [norm_ws(p) for p in where.split(',') if p.strip()]
+    bad = [p for p in preds if not re.match(r"^('\w+|Self)\s*:\s*'async_trait$", p)]
+    if bad:
+        raise ExtractError('R18b: %s: where-clause predicate(s) %r cannot be dropped' % (name, bad))
+    new = sig[:m.start(2) - 1] + params + ' -> ' + out + ' '
+    fired.append("R18b desugared #[async_trait] signature -> fn %s(..) -> %s (lifetimes %s, %d where-predicates, Pin<Box<dyn Future>> dropped)"
+                 % (name, out, ' '.join(lts), len(preds)))
+    return _pad(new, sig)
+
+
 class features:
     """`with features({'async-io'}):` - evaluate #[cfg(feature = ..)] with these features ON in addition to the fixed
     configuration, for one unit only (Unit.cfg_features); restored on exit, so no other unit changes behaviour."""
@@ -914,7 +1016,7 @@ def _call_receiver_start(msk, dot):
     return j
 
 
-def r31_result_inspect(text, fired):
+def r31_result_inspect(text, fired, paren=False):
     """R31: `RECV.inspect(|&X| BLOCK)`  ->  `{ let insp_N = RECV; if let Ok(insp_N_ref) = &insp_N { let X = *insp_N_ref; BLOCK } insp_N }`
 
     Definition of `Result::inspect` (std: "Calls a function with a reference to the contained value if Ok.  Returns the original
@@ -943,6 +1045,8 @@ def r31_result_inspect(text, fired):
         recv = text[rs:m0.start()].rstrip()
         v = 'insp_%d' % n
         new = '{ let %s = %s; if let Ok(%s_ref) = &%s { let %s = *%s_ref; %s } %s }' % (v, recv, v, v, m.group(1), v, text[ob:cb + 1], v)
+        if paren:       # Fn form (unit fusedevw): `({ .. })` so that a method call may follow the block in statement position; explicit else = R24
+            new = '(' + new.replace(' } %s }' % v, ' } else { } %s }' % v) + ')'
         fired.append('R31 %s.inspect(|&%s| {..}) -> let + if let Ok + the original result' % (norm_ws(recv)[:40], m.group(1)))
         text = text[:rs] + _pad(new, text[rs:e]) + text[e:]
     return text
@@ -1048,4 +1152,207 @@ def r33_iter_map_collect(text, fired):
         foot = '; %s.push(%s_v); %s_i += 1; }' % (p, p, p)
         fired.append('R33 let %s: %s = %s.iter().map(|%s| ..).collect() -> index loop pushing the closure body' % (p, ty, coll, x))
         text = text[:m.start()] + _pad(head, text[m.start():k]) + text[k:e] + _pad(foot, text[e:end]) + text[end:]
+    return text
+
+
+def r34_continue_to_else(text, fired):
+    """R34 (opt-in, unit pseudopersist): inside a `for`/`while`/`loop` body,
+            `if C { continue; } [else { }] REST }`   ->   `if C { } else { REST } }`
+    where the `if` is a statement directly in the loop body, its then-block consists of `continue;` only (comments aside) and REST is
+    everything up to the end of the loop body.  Same meaning: `continue` skips the rest of the body, which is what not entering the else
+    branch does.  Reason: Verus `for` loops do not support `continue`.  Any other `continue` raises ExtractError (exit 2)."""
+    while True:
+        msk = mask(text)
+        m = re.search(r'\bcontinue\s*;', msk)
+        if not m:
+            break
+        tail = re.match(r'\s*\}', msk[m.end():])
+        if not tail:
+            raise ExtractError('R34: `continue` is not the last statement of its block')
+        cb = m.end() + tail.end() - 1
+        d, ob = 0, cb
+        while ob >= 0:
+            if msk[ob] == '}':
+                d += 1
+            elif msk[ob] == '{':
+                d -= 1
+                if d == 0:
+                    break
+            ob -= 1
+        if ob < 0 or msk[ob + 1:m.start()].strip():
+            raise ExtractError('R34: the block of `continue` contains other statements')
+        ifs = [mm for mm in re.finditer(r'\bif\b', msk[:ob])]
+        if not ifs or '{' in msk[ifs[-1].end():ob] or ';' in msk[ifs[-1].end():ob] or '}' in msk[ifs[-1].end():ob]:
+            raise ExtractError('R34: `continue` is not the then-block of an `if`')
+        istart = ifs[-1].start()
+        e = cb + 1
+        em = re.match(r'\s*else\s*\{\s*\}', msk[e:])
+        if em:
+            e += em.end()
+        elif re.match(r'\s*else\b', msk[e:]):
+            raise ExtractError('R34: the `if` of `continue` has a non-empty else')
+        d, E = 0, e
+        while E < len(msk):
+            if msk[E] in '{([':
+                d += 1
+            elif msk[E] in '})]':
+                if d == 0:
+                    break
+                d -= 1
+            E += 1
+        if E >= len(msk) or msk[E] != '}':
+            raise ExtractError('R34: enclosing block not found')
+        d, OB = 0, E
+        while OB >= 0:
+            if msk[OB] == '}':
+                d += 1
+            elif msk[OB] == '{':
+                d -= 1
+                if d == 0:
+                    break
+            OB -= 1
+        if msk[OB + 1:istart].strip() and not re.search(r'[;}]\s*$', msk[OB + 1:istart]):
+            raise ExtractError('R34: the `if` of `continue` is not a statement')
+        hs = max(msk.rfind(';', 0, OB), msk.rfind('{', 0, OB), msk.rfind('}', 0, OB)) + 1
+        if not re.match(r"\s*(?:'\w+\s*:\s*)?(for|while|loop)\b", msk[hs:OB]):
+            raise ExtractError('R34: `continue` is not directly inside a loop body: %r' % norm_ws(text[hs:OB])[:60])
+        fired.append('R34 if %s { continue; } REST -> if .. { } else { REST }' % norm_ws(text[ifs[-1].end():ob])[:40])
+        text = text[:m.start()] + _pad('', text[m.start():m.end()]) + text[m.end():cb + 1] + ' else {' + _pad('', text[cb + 1:e]) + text[e:E] + '}' + text[E:]
+    return text
+
+
+# ----------------------------------------------------------------------------------------------
+# R40..R42 and the free-call form of R23: opt-in per Fn (`fn.rules = ('R31', 'R40', 'R41', 'R42')`), used by unit fusedevw (C04):
+# iterator adapter chains over `E.iter()` replaced by their std definitions (Verus has no specification for iterator adapters and
+# rejects closures that capture `&mut self`); the closure bodies are kept verbatim and become plain code of the enclosing function.
+
+_ITER_RECV = r'((?:\w+\s*\.\s*)*\w+\s*\.\s*iter\s*\(\s*\))'
+
+
+def _closure_body(text, msk, k, stop):
+    """closure body starting at k (after the `|..|`), inside a call whose closing parenthesis is at `stop`: the body is everything up
+    to `stop` (a block or an expression; a trailing comma is dropped).  A block must be the whole body."""
+    body = text[k:stop].strip()
+    if body.endswith(','):
+        body = body[:-1].rstrip()
+    j = k
+    while msk[j] in ' \t\n':
+        j += 1
+    if msk[j] == '{' and msk[match_close(msk, j) + 1:stop].strip(' \t\n,'):
+        raise ExtractError('closure block is followed by more text: %r' % norm_ws(text[k:stop])[:60])
+    if not body:
+        raise ExtractError('empty closure body')
+    return body
+
+
+def r40_iter_fold(text, fired):
+    """R40: `E.iter().fold(INIT, |ACC, X| BODY)`  ->  `{ let mut ACC = INIT; for X in E.iter() { ACC = BODY; } ACC }`
+
+    Definition of `Iterator::fold` (std: `let mut accum = init; while let Some(x) = self.next() { accum = f(accum, x); } accum`) over
+    `E.iter()` (E a place path naming a slice / Vec), with the closure call `f(accum, x)` replaced by the closure's body, in which the
+    parameter ACC names the accumulator (read-only inside BODY: a `mut` parameter pattern is not accepted) and X the item.  BODY (block or
+    expression) is textually unchanged; what it captured it now names directly, and its side effects happen at the same points in the
+    same order.  Nothing is dropped.  Any other shape of `.fold(` raises ExtractError (exit 2)."""
+    while True:
+        msk = mask(text)
+        m0 = re.search(r'\.\s*fold\s*\(', msk)
+        if not m0:
+            break
+        m = None
+        for mm in re.finditer(_ITER_RECV + r'\s*\.\s*fold\s*\(', msk):
+            if mm.end() == m0.end():
+                m = mm
+        if not m:
+            raise ExtractError('R40: unsupported shape of .fold(..): %r' % norm_ws(text[max(0, m0.start() - 60):m0.end() + 30]))
+        ob = m.end() - 1
+        cb = match_close(msk, ob)
+        am = re.match(r'\s*([^,|]+?)\s*,\s*\|\s*(\w+)\s*,\s*(\w+)\s*\|', msk[ob + 1:cb])
+        if not am:
+            raise ExtractError('R40: arguments of .fold(..) are not `INIT, |ACC, X| BODY`: %r' % norm_ws(text[ob:cb + 1])[:80])
+        init = text[ob + 1 + am.start(1):ob + 1 + am.end(1)]
+        acc, x = am.group(2), am.group(3)
+        body = _closure_body(text, msk, ob + 1 + am.end(), cb)
+        recv = re.sub(r'\s+', '', text[m.start(1):m.end(1)])
+        new = '{ let mut %s = %s; for %s in %s { %s = %s; } %s }' % (acc, init, x, recv, acc, body, acc)
+        fired.append('R40 %s.fold(%s, |%s, %s| ..) -> accumulator loop with the closure body' % (recv, norm_ws(init), acc, x))
+        text = text[:m.start()] + _pad(new, text[m.start():cb + 1]) + text[cb + 1:]
+    return text
+
+
+def r41_r42_iter_filter(text, fired, rules=('R41', 'R42')):
+    """R41: `E.iter().filter(|P| COND).fold(INIT, |ACC, X| BODY)`
+              ->  `{ let mut ACC = INIT; for X in E.iter() { if ({ let P = &X; COND }) { ACC = BODY; } else { } } ACC }`
+       R42: `for X in E.iter().filter(|P| COND) { B }`
+              ->  `for X in E.iter() { if ({ let P = &X; COND }) { B } else { } }`
+
+    Definition of `Iterator::filter` (std: yields exactly the items for which the predicate, called with a reference to the item,
+    returns true; the others are dropped; order kept), composed with the definition of `fold` (see R40) resp. with a `for` loop
+    (which calls `next()` until None).  `let P = &X;` is the `&Self::Item` the predicate receives; COND, BODY and B are textually
+    unchanged.  The predicate is evaluated once per item, immediately before that item is processed - as the lazy adapter does.
+    In R42 a `break` / `continue` / `?` inside B leaves or continues the same loop as before.  The explicit empty else is rule R24.
+    Nothing is dropped.  Any other shape of `.filter(` raises ExtractError (exit 2)."""
+    while True:
+        msk = mask(text)
+        m0 = re.search(r'\.\s*filter\s*\(', msk)
+        if not m0:
+            break
+        m = None
+        for mm in re.finditer(_ITER_RECV + r'\s*\.\s*filter\s*\(', msk):
+            if mm.end() == m0.end():
+                m = mm
+        if not m:
+            raise ExtractError('R41/R42: unsupported shape of .filter(..): %r' % norm_ws(text[max(0, m0.start() - 60):m0.end() + 30]))
+        fob = m.end() - 1
+        fcb = match_close(msk, fob)
+        pm = re.match(r'\s*\|\s*(\w+)\s*\|', msk[fob + 1:fcb])
+        if not pm:
+            raise ExtractError('R41/R42: predicate of .filter(..) is not `|P| COND`: %r' % norm_ws(text[fob:fcb + 1])[:80])
+        p = pm.group(1)
+        cond = _closure_body(text, msk, fob + 1 + pm.end(), fcb)
+        recv = re.sub(r'\s+', '', text[m.start(1):m.end(1)])
+        fm = re.match(r'\s*\.\s*fold\s*\(', msk[fcb + 1:])
+        hm = re.search(r'\bfor\s+(\w+)\s+in\s+$', msk[:m.start()])
+        lm = re.match(r'\s*\{', msk[fcb + 1:])
+        if fm and 'R41' in rules:
+            ob = fcb + 1 + fm.end() - 1
+            cb = match_close(msk, ob)
+            am = re.match(r'\s*([^,|]+?)\s*,\s*\|\s*(\w+)\s*,\s*(\w+)\s*\|', msk[ob + 1:cb])
+            if not am:
+                raise ExtractError('R41: arguments of .fold(..) are not `INIT, |ACC, X| BODY`: %r' % norm_ws(text[ob:cb + 1])[:80])
+            init = text[ob + 1 + am.start(1):ob + 1 + am.end(1)]
+            acc, x = am.group(2), am.group(3)
+            body = _closure_body(text, msk, ob + 1 + am.end(), cb)
+            new = '{ let mut %s = %s; for %s in %s { if ({ let %s = &%s; %s }) { %s = %s; } else { } } %s }' % (acc, init, x, recv, p, x, cond, acc, body, acc)
+            fired.append('R41 %s.filter(|%s| ..).fold(%s, |%s, %s| ..) -> accumulator loop with `if` (predicate and closure body verbatim)' % (recv, p, norm_ws(init), acc, x))
+            text = text[:m.start()] + _pad(new, text[m.start():cb + 1]) + text[cb + 1:]
+        elif hm and lm and 'R42' in rules:
+            x = hm.group(1)
+            ob = fcb + 1 + lm.end() - 1
+            cb = match_close(msk, ob)
+            new = 'for %s in %s { if ({ let %s = &%s; %s }) %s else { } }' % (x, recv, p, x, cond, text[ob:cb + 1])
+            fired.append('R42 for %s in %s.filter(|%s| ..) {..} -> for %s in %s { if (predicate) {..} else { } }' % (x, recv, p, x, recv))
+            text = text[:hm.start()] + _pad(new, text[hm.start():cb + 1]) + text[cb + 1:]
+        else:
+            raise ExtractError('R41/R42: .filter(..) is neither followed by .fold(..) nor the iterator of a `for` loop (or the rule is not enabled): %r'
+                               % norm_ws(text[m.start():fcb + 40])[:100])
+    return text
+
+
+def r23_ghost_token_free_calls(text, fired, callees, arg):
+    """R23, body part for free-function calls: every call `NAME(ARGS)` with NAME in `callees` (`ghost_token['free_callees']`) that is neither
+    a method call (`.NAME(`), a path call (`::NAME(`) nor a definition (`fn NAME(`) gets the ghost argument appended, exactly as
+    r23_ghost_token_calls does for `.NAME(ARGS)` (unit fusedevw: the device writes `write(fd, buf)` / `writev(fd, iov)`)."""
+    msk = mask(text)
+    hits = [m for m in re.finditer(r'(?<![\w.:])(%s)\s*\(' % '|'.join(re.escape(c) for c in callees), msk)
+            if not re.search(r'\bfn\s+$', msk[:m.start()])]
+    for m in reversed(hits):
+        ob = m.end() - 1
+        cb = match_close(msk, ob)
+        j = cb
+        while msk[j - 1] in ' \t\n':
+            j -= 1
+        sep = '' if j - 1 == ob else (' ' if msk[j - 1] == ',' else ', ')
+        text = text[:j] + sep + arg + text[j:]
+    if hits:
+        fired.append('R23 ghost argument %s appended to %d free call(s): %s' % (arg, len(hits), ', '.join(sorted(set(m.group(1) for m in hits)))))
     return text
